@@ -4,6 +4,8 @@ import (
 	"fmt"
 	"go/token"
 	"go/types"
+	"os"
+	"sort"
 	"strings"
 
 	"golang.org/x/tools/go/ssa"
@@ -50,6 +52,7 @@ func (e *Enc) callWith(fr *Frame, c *ssa.CallCommon, site ssa.Instruction, st *S
 		if ct := e.w.ct.Funcs[key]; ct != nil {
 			return e.applyContract(fr, ct, key, c.Method.Type().(*types.Signature), all, true, st, rb, site, resType)
 		}
+		e.countCall(fr, key, all, st, rb, site)
 		return e.defaultCall(fr, key, all, st, rb, resType, true)
 	}
 	if b, ok := c.Value.(*ssa.Builtin); ok {
@@ -109,10 +112,14 @@ func (e *Enc) callWith(fr *Frame, c *ssa.CallCommon, site ssa.Instruction, st *S
 	if ct := e.w.ct.Funcs[key]; ct != nil && !ct.Inline {
 		return e.applyContract(fr, ct, key, fn.Signature, args, false, st, rb, site, resType)
 	}
+	e.countCall(fr, key, args, st, rb, site)
 	// synthetic wrappers (bound methods, thunks) and in-repo functions: inline
 	if e.canInline(fr, fn) {
 		return e.inline(fr, fn, args, callee.Clo.Bind, st, rb)
 	}
+	// (a class-hierarchy based "no writer of this field is reachable from the callee" rule was tried
+	// here - keptAcrossCall - and is switched off: CHA over the whole program reaches almost every
+	// method from almost every function once the standard library is in the cone)
 	return e.defaultCall(fr, key, args, st, rb, resType, false)
 }
 
@@ -240,7 +247,21 @@ func (e *Enc) defaultCall(fr *Frame, key string, args []Val, st *State, rb Term,
 	}
 	e.havocked[key] = true
 	st = e.Leak(st, args...)
-	st = e.Havoc(st, e.modAllHeapFor(inRepo))
+	mod := e.modAllHeapFor(inRepo)
+	if callee := e.curCallee; callee != nil {
+		base := mod
+		mod = func(c string) bool {
+			if !base(c) {
+				return false
+			}
+			if e.w.keptAcrossCall(c, callee) {
+				e.trusted["unexported field "+compShort(c)+" kept across the call of "+funcShort(callee)+": no function storing to it is reachable from the callee (class-hierarchy call graph, whole program)"] = true
+				return false
+			}
+			return true
+		}
+	}
+	st = e.Havoc(st, mod)
 	e.assumeNotPrivate(res, st)
 	return res, st, rb
 }
@@ -292,20 +313,7 @@ func (e *Enc) applyContractFV(fr *Frame, ct *Contract, key string, sig *types.Si
 			}
 		}
 	}
-	// cut-point assertions of the host contract for this call
-	if fr.contract != nil {
-		for _, ca := range fr.contract.Asserts {
-			if ca.Kind == "call" && ca.N == n && strings.HasSuffix(short, sanitize(ca.Callee)) {
-				henv := e.hostEnv(fr)
-				for i, a := range args {
-					henv.vars[fmt.Sprintf("callarg%d", i)] = a
-				}
-				f, watch := e.evalBoolWatch(henv, ca.Clause.Expr, st, fr.entry, ca.Clause)
-				o := e.ob(fr, "assert", fmt.Sprintf("assert@%s#%d", ca.Callee, n), rb, f, ca.Clause.Src, sitePos(site))
-				o.Watch = append(append(e.paramWatch(fr.top), watch...), e.contractWatch(fr, st, fr.top.entry)...)
-			}
-		}
-	}
+	e.callAsserts(fr, short, n, args, st, rb, site)
 	for k, rq := range ct.Requires {
 		f, watch := e.evalBoolWatch(env, rq.Expr, st, st, rq)
 		o := e.ob(fr, "pre", fmt.Sprintf("pre@%s#%d.%d", short, n, k), rb, f, rq.Src, sitePos(site))
@@ -438,13 +446,14 @@ func (e *Enc) modFromContract0(ct *Contract) func(string) bool {
 }
 
 // matchComp matches a modifies pattern against a component name.
-//   "*"            everything (except locals)
-//   "ghost x"/"$x" ghost variable
-//   "T.f"          field heap of struct type whose key ends in T
-//   "T.*"          all fields of T
-//   "elems(T)"     slice backing stores with element type ending in T
-//   "map(K,V)"     maps
-//   "cell(T)"
+//
+//	"*"            everything (except locals)
+//	"ghost x"/"$x" ghost variable
+//	"T.f"          field heap of struct type whose key ends in T
+//	"T.*"          all fields of T
+//	"elems(T)"     slice backing stores with element type ending in T
+//	"map(K,V)"     maps
+//	"cell(T)"
 func matchComp(p, c string) bool {
 	p = strings.TrimSpace(p)
 	switch {
@@ -708,8 +717,40 @@ func (e *Enc) lenOf(v Val, st *State) Term {
 // ---------------------------------------------------------------------------
 // loops: which components may change in a loop body
 
+// freshDerived: the slice / pointer value certainly denotes memory allocated by the executing
+// function itself (make, new/&T{}, append - which the model always lets return a new backing store -
+// or phis/reslices of such values, nil included).
+func freshDerived(v ssa.Value, seen map[ssa.Value]bool) bool {
+	if seen[v] {
+		return true
+	}
+	seen[v] = true
+	switch x := v.(type) {
+	case *ssa.MakeSlice, *ssa.Alloc, *ssa.MakeMap:
+		return true
+	case *ssa.Const:
+		return x.IsNil()
+	case *ssa.Slice:
+		return freshDerived(x.X, seen)
+	case *ssa.Phi:
+		for _, ed := range x.Edges {
+			if !freshDerived(ed, seen) {
+				return false
+			}
+		}
+		return true
+	case *ssa.Call:
+		if b, ok := x.Call.Value.(*ssa.Builtin); ok && b.Name() == "append" {
+			return true
+		}
+	}
+	return false
+}
+
 func (e *Enc) loopModSet(fr *Frame, body map[*ssa.BasicBlock]bool) func(string) bool {
 	set := map[string]bool{}
+	nonFresh := map[string]bool{} // components with a store whose target is not known to be fresh
+	e.loopFreshOnly = nil
 	all := false
 	allRepo := false
 	var pats, logs []string
@@ -729,7 +770,15 @@ func (e *Enc) loopModSet(fr *Frame, body map[*ssa.BasicBlock]bool) func(string) 
 		switch v := c.Value.(type) {
 		case *ssa.Builtin:
 			switch v.Name() {
-			case "append", "copy", "delete", "clear":
+			case "append":
+				// append writes into a backing store that the model always allocates anew
+				if st, ok := c.Args[0].Type().Underlying().(*types.Slice); ok && depth == 0 {
+					set[e.elemComp(st.Elem())] = true
+					set["$alloc"] = true
+				} else {
+					all = true
+				}
+			case "copy", "delete", "clear":
 				all = true // conservative (E/M components)
 			}
 			return
@@ -788,13 +837,22 @@ func (e *Enc) loopModSet(fr *Frame, body map[*ssa.BasicBlock]bool) func(string) 
 				}
 				pt := root.X.Type().Underlying().(*types.Pointer)
 				set[e.fieldComp(pt.Elem(), root.Field)] = true
+				if depth != 0 || !freshDerived(root.X, map[ssa.Value]bool{}) {
+					nonFresh[e.fieldComp(pt.Elem(), root.Field)] = true
+				}
 			case *ssa.IndexAddr:
 				switch bt := a.X.Type().Underlying().(type) {
 				case *types.Slice:
 					set[e.elemComp(bt.Elem())] = true
+					if depth != 0 || !freshDerived(a.X, map[ssa.Value]bool{}) {
+						nonFresh[e.elemComp(bt.Elem())] = true
+					}
 				case *types.Pointer:
 					if at, ok := bt.Elem().Underlying().(*types.Array); ok {
 						set[e.elemComp(at.Elem())] = true
+						if depth != 0 || !freshDerived(a.X, map[ssa.Value]bool{}) {
+							nonFresh[e.elemComp(at.Elem())] = true
+						}
 					}
 				}
 			case *ssa.Alloc:
@@ -893,9 +951,33 @@ func (e *Enc) loopModSet(fr *Frame, body map[*ssa.BasicBlock]bool) func(string) 
 			}
 		}
 	}
+	otherStore := map[string]bool{} // components touched by anything but the fresh-tracked instructions
+	realSet := set
 	for b := range body {
 		for _, in := range b.Instrs {
+			tracked := false
+			switch x := in.(type) {
+			case *ssa.Store:
+				switch x.Addr.(type) {
+				case *ssa.FieldAddr, *ssa.IndexAddr:
+					tracked = true
+				}
+			case *ssa.Alloc, *ssa.MakeSlice, *ssa.MakeMap:
+				tracked = true
+			case *ssa.Call:
+				if bi, ok := x.Call.Value.(*ssa.Builtin); ok && bi.Name() == "append" {
+					tracked = true
+				}
+			}
+			set = map[string]bool{}
 			scanInstr(in, 0)
+			for c := range set {
+				realSet[c] = true
+				if !tracked {
+					otherStore[c] = true
+				}
+			}
+			set = realSet
 		}
 	}
 	// locals of this frame allocated before the loop but written in it through captured closures
@@ -903,6 +985,19 @@ func (e *Enc) loopModSet(fr *Frame, body map[*ssa.BasicBlock]bool) func(string) 
 		for _, n := range fr.locals {
 			_ = n
 		}
+	}
+	// components only written through fresh memory (and not by any callee): the cells that existed at
+	// function entry keep their contents across the loop
+	if !all && len(pats) == 0 {
+		for c := range set {
+			if (strings.HasPrefix(c, "E:") || strings.HasPrefix(c, "F:")) && !nonFresh[c] && !otherStore[c] {
+				e.loopFreshOnly = append(e.loopFreshOnly, c)
+			}
+		}
+		sort.Strings(e.loopFreshOnly)
+	}
+	if os.Getenv("GOVC_DEBUG_LOOP") != "" {
+		fmt.Fprintf(os.Stderr, "loopModSet %s: all=%v pats=%v set=%v nonFresh=%v other=%v fresh=%v\n", fr.fn.Name(), all, pats, sortedKeys(realSet), sortedKeys(nonFresh), sortedKeys(otherStore), e.loopFreshOnly)
 	}
 	base := e.modAllHeapFor(allRepo)
 	return func(c string) bool {
@@ -1062,4 +1157,39 @@ func (e *Enc) terminationOb(fr *Frame, fn *ssa.Function, args []Val, st *State, 
 	mT := e.eval(e.hostEnv(top), tdec.Expr, top.entry, top.entry)
 	e.ob(fr, "safety.termination", e.nextName(fr, "safety.termination"), rb,
 		and("(<= 0 "+mC.T+")", "(< "+mC.T+" "+mT.T+")"), "decreases "+cct.Decreases.Src, sitePos(site))
+}
+
+// callAsserts: cut-point assertions (`assert at call <callee>#n: e`) of the contract under
+// verification for the n-th call of a callee, evaluated in the state right before the call.
+func (e *Enc) callAsserts(fr *Frame, short string, n int, args []Val, st *State, rb Term, site ssa.Instruction) {
+	if fr.contract == nil {
+		return
+	}
+	for k, ca := range fr.contract.Asserts {
+		if ca.Kind == "call" && ca.N == n && strings.HasSuffix(short, sanitize(ca.Callee)) {
+			henv := e.hostEnv(fr)
+			for i, a := range args {
+				henv.vars[fmt.Sprintf("callarg%d", i)] = a
+			}
+			f, watch := e.evalBoolWatch(henv, ca.Clause.Expr, st, fr.entry, ca.Clause)
+			fr.top.callN[fmt.Sprintf("assertseen:%d", k)]++
+			name := fmt.Sprintf("assert@%s#%d", ca.Callee, n)
+			if c := fr.top.callN["assertname:"+name]; c > 0 {
+				name = fmt.Sprintf("%s.%d", name, c+1)
+			}
+			fr.top.callN["assertname:"+fmt.Sprintf("assert@%s#%d", ca.Callee, n)]++
+			o := e.ob(fr, "assert", name, rb, f, ca.Clause.Src, sitePos(site))
+			o.Watch = append(append(e.paramWatch(fr.top), watch...), e.contractWatch(fr, st, fr.top.entry)...)
+		}
+	}
+}
+
+// countCall numbers the calls of a callee without contract (for cut-point assertions).
+func (e *Enc) countCall(fr *Frame, key string, args []Val, st *State, rb Term, site ssa.Instruction) {
+	if fr.contract == nil || len(fr.contract.Asserts) == 0 {
+		return
+	}
+	short := shortKey(key)
+	fr.top.callN["call@"+short]++
+	e.callAsserts(fr, short, fr.top.callN["call@"+short], args, st, rb, site)
 }
